@@ -13,6 +13,7 @@ import (
 	"github.com/gordian-engine/gordian/tm/tmconsensus"
 	"github.com/gordian-engine/gordian/tm/tmengine/internal/tmeil"
 	"github.com/gordian-engine/gordian/tm/tmengine/tmelink"
+	"github.com/gordian-engine/gordian/tm/tmstore"
 	"github.com/gordian-engine/gordian/tm/tmstore/tmmemstore"
 )
 
@@ -37,17 +38,101 @@ type vhM struct {
 	fetched   chan tmconsensus.ProposedHeader
 
 	initialHeight uint64
+	hsch          vkit.HashScheme
+	crash         *vhCrash // non-nil: stores are wrapped and "the process stops" after the k-th store write
+}
+
+// vhCrash counts mutating store calls; the crashAt-th one is performed and then the calling
+// goroutine (the kernel) is frozen for ever: nothing after that write happens in the old
+// process. crashed is closed at that moment.
+type vhCrash struct {
+	writes  int
+	crashAt int // 0 = never
+	crashed chan struct{}
+	never   chan struct{}
+	hit     bool
+	armed   bool // writes are only counted once the process is up (start-up writes are not crash points here)
+}
+
+func newCrash(at int) *vhCrash {
+	return &vhCrash{crashAt: at, crashed: make(chan struct{}), never: make(chan struct{})}
+}
+
+func (c *vhCrash) wrote() {
+	if !c.armed {
+		return
+	}
+	c.writes++
+	if c.crashAt != 0 && c.writes == c.crashAt {
+		c.hit = true
+		close(c.crashed)
+		<-c.never
+	}
+}
+
+type vhCrashMirrorStore struct {
+	*tmmemstore.MirrorStore
+	c *vhCrash
+}
+
+func (w vhCrashMirrorStore) SetNetworkHeightRound(ctx context.Context, vh uint64, vr uint32, ch uint64, cr uint32) error {
+	err := w.MirrorStore.SetNetworkHeightRound(ctx, vh, vr, ch, cr)
+	w.c.wrote()
+	return err
+}
+
+type vhCrashHeaderStore struct {
+	*tmmemstore.CommittedHeaderStore
+	c *vhCrash
+}
+
+func (w vhCrashHeaderStore) SaveCommittedHeader(ctx context.Context, ch tmconsensus.CommittedHeader) error {
+	err := w.CommittedHeaderStore.SaveCommittedHeader(ctx, ch)
+	w.c.wrote()
+	return err
+}
+
+type vhCrashRoundStore struct {
+	*tmmemstore.RoundStore
+	c *vhCrash
+}
+
+func (w vhCrashRoundStore) SaveRoundProposedHeader(ctx context.Context, ph tmconsensus.ProposedHeader) error {
+	err := w.RoundStore.SaveRoundProposedHeader(ctx, ph)
+	w.c.wrote()
+	return err
+}
+func (w vhCrashRoundStore) SaveRoundReplayedHeader(ctx context.Context, h tmconsensus.Header) error {
+	err := w.RoundStore.SaveRoundReplayedHeader(ctx, h)
+	w.c.wrote()
+	return err
+}
+func (w vhCrashRoundStore) OverwriteRoundPrevoteProofs(ctx context.Context, h uint64, r uint32, p tmconsensus.SparseSignatureCollection) error {
+	err := w.RoundStore.OverwriteRoundPrevoteProofs(ctx, h, r, p)
+	w.c.wrote()
+	return err
+}
+func (w vhCrashRoundStore) OverwriteRoundPrecommitProofs(ctx context.Context, h uint64, r uint32, p tmconsensus.SparseSignatureCollection) error {
+	err := w.RoundStore.OverwriteRoundPrecommitProofs(ctx, h, r, p)
+	w.c.wrote()
+	return err
 }
 
 // vhNewMirror starts a real mirror at genesis over the given keys and powers.
 func vhNewMirror(keys []gcrypto.PubKey, pows []uint64, initialHeight uint64) *vhM {
-	e := &vhM{ctx: context.Background(), n: len(keys), keys: keys, pows: pows, initialHeight: initialHeight}
-	e.vs = vkit.ValSet(keys, pows)
+	return vhNewMirrorHS(keys, pows, initialHeight, vkit.HashScheme{})
+}
+
+func vhNewMirrorHS(keys []gcrypto.PubKey, pows []uint64, initialHeight uint64, hs vkit.HashScheme) *vhM {
+	e := &vhM{ctx: context.Background(), n: len(keys), keys: keys, pows: pows, initialHeight: initialHeight, hsch: hs}
+	e.vs = vkit.ValSetHS(keys, pows, hs)
 	e.ms = tmmemstore.NewMirrorStore()
 	e.hs = tmmemstore.NewCommittedHeaderStore()
 	e.rs = tmmemstore.NewRoundStore()
-	e.vst = tmmemstore.NewValidatorStore(vkit.HashScheme{})
-	e.restart()
+	e.vst = tmmemstore.NewValidatorStore(e.hsch)
+	if err := e.restart(); err != nil {
+		panic(err)
+	}
 	return e
 }
 
@@ -59,16 +144,24 @@ func (e *vhM) restart() error {
 	e.replayIn = make(chan tmelink.ReplayedHeaderRequest)
 	e.fetchReq = make(chan tmelink.ProposedHeaderFetchRequest, 8)
 	e.fetched = make(chan tmconsensus.ProposedHeader)
+	var mst tmstore.MirrorStore = e.ms
+	var hst tmstore.CommittedHeaderStore = e.hs
+	var rst tmstore.RoundStore = e.rs
+	if e.crash != nil {
+		mst = vhCrashMirrorStore{e.ms, e.crash}
+		hst = vhCrashHeaderStore{e.hs, e.crash}
+		rst = vhCrashRoundStore{e.rs, e.crash}
+	}
 	m, err := NewMirror(e.ctx, verifrt.Logger(), MirrorConfig{
-		Store:                e.ms,
-		CommittedHeaderStore: e.hs,
-		RoundStore:           e.rs,
+		Store:                mst,
+		CommittedHeaderStore: hst,
+		RoundStore:           rst,
 		ValidatorStore:       e.vst,
 
 		InitialHeight:       e.initialHeight,
 		InitialValidatorSet: e.vs,
 
-		HashScheme:                        vkit.HashScheme{},
+		HashScheme:                        e.hsch,
 		SignatureScheme:                   vkit.SigScheme{},
 		CommonMessageSignatureProofScheme: gcrypto.SimpleCommonMessageSignatureProofScheme{},
 
@@ -157,6 +250,12 @@ func (e *vhM) views() (voting, committing vhViewDigest) {
 // verifyViewSignatures re-verifies every signature found in a view through the same
 // verification predicate, for exactly the kind/height/round/hash it is filed under.
 func (e *vhM) verifyViewSignatures(tag string, v *tmconsensus.VersionedRoundView) {
+	e.verifyViewSignaturesWith(tag, v, e.keys)
+}
+
+// verifyViewSignaturesWith verifies under the given member keys (the set the chain prescribes
+// for the view's height).
+func (e *vhM) verifyViewSignaturesWith(tag string, v *tmconsensus.VersionedRoundView, keys []gcrypto.PubKey) {
 	check := func(kind string, precommit bool, proofs map[string]gcrypto.CommonMessageSignatureProof) {
 		for hash, p := range proofs {
 			var content []byte
@@ -166,13 +265,13 @@ func (e *vhM) verifyViewSignatures(tag string, v *tmconsensus.VersionedRoundView
 				content = vkit.PrevoteContent(v.Height, v.Round, hash)
 			}
 			for _, sg := range p.AsSparse().Signatures {
-				okID := len(sg.KeyID) == 2 && int(sg.KeyID[0])<<8|int(sg.KeyID[1]) < e.n
+				okID := len(sg.KeyID) == 2 && int(sg.KeyID[0])<<8|int(sg.KeyID[1]) < len(keys)
 				verifrt.Assert(okID, tag+":"+kind+"-signature-key-id-is-a-member")
 				if !okID {
 					continue
 				}
 				id := int(sg.KeyID[0])<<8 | int(sg.KeyID[1])
-				verifrt.Assert(e.keys[id].Verify(content, sg.Sig), tag+":"+kind+"-signature-verifies-for-its-target")
+				verifrt.Assert(keys[id].Verify(content, sg.Sig), tag+":"+kind+"-signature-verifies-for-its-target")
 			}
 		}
 	}
@@ -225,3 +324,7 @@ func vhOffer(n int, tag byte) (gcrypto.SparseSignature, int) {
 	}
 }
 
+
+func newStores(hs vkit.HashScheme) (*tmmemstore.MirrorStore, *tmmemstore.CommittedHeaderStore, *tmmemstore.RoundStore, *tmmemstore.ValidatorStore) {
+	return tmmemstore.NewMirrorStore(), tmmemstore.NewCommittedHeaderStore(), tmmemstore.NewRoundStore(), tmmemstore.NewValidatorStore(hs)
+}
